@@ -120,6 +120,9 @@ func (cw *ChunkWriter) getHeader() []byte {
 		Version:         uint64(V2),
 		CompressionType: cw.meta.CompressionType,
 	}
+	if verifEnabled {
+		header.UnreliableTime = verifHeaderTime(header.UnreliableTime)
+	}
 	data := pb.MustMarshal(&header)
 	h := newCRC32Hash()
 	fileutil.MustWrite(h, data)
